@@ -42,7 +42,7 @@ def read_wrappers(outputs):
 class C03(C.PipelineCheck):
     id = 'C03'
     title = 'Exactly one wrapper per discovered command, invoking exactly its Rust name'
-    required_covers = ('layout:included', 'layout:excluded', 'attr:command', 'attr:other', 'item:nested', 'unparsable', 'name:symbolic', 'root-named-target')
+    required_covers = ('layout:included', 'layout:excluded', 'attr:command', 'attr:other', 'item:nested', 'unparsable', 'name:symbolic', 'name:raw', 'root-named-target')
 
     def bounds(self, tier):
         q = tier != 'thorough'
@@ -79,6 +79,9 @@ class C03(C.PipelineCheck):
             yield ('unparsable%d' % v, dict(kind='unparsable', v=v))
         for n in range(1, (4 if q else 6) + 1):
             yield ('name/%d' % n, dict(kind='name', n=n))
+        # commands declared with a raw identifier (`fn r#type`): Tauri registers them under the identifier's text, r# included
+        for n in ((2, 4) if q else (2, 3, 4, 5, 6)):
+            yield ('rawname/%d' % n, dict(kind='rawname', n=n))
 
     def mutant_scenarios(self, tier, name):
         for j in self.scenarios('quick'):
@@ -94,7 +97,7 @@ class C03(C.PipelineCheck):
         def body(e):
             mode = ('none', 'zod')[e.choose(2)]
             e.order_mode = 'scoped'
-            e.order_all_in = SCOPE if kind not in ('name', 'attr') else set()
+            e.order_all_in = SCOPE if kind not in ('name', 'attr', 'rawname') else set()
             e.order_fallback = ('insertion', 'reverse')[e.choose(2)]
             holes = {}
             files = {'src/main.rs': cmd % 'alpha', 'src/lib.rs': 'pub fn helper() {}\n' + cmd % 'beta'}
@@ -216,6 +219,16 @@ class C03(C.PipelineCheck):
                     expected = [x for x in expected if x.py() != 'beta']
                 e.cover('unparsable')
                 tag = 'unparsable:%d' % which
+            elif kind == 'rawname':
+                nm0 = sym.sym_str('n', p['n'], 'abcdefghijklmnopqrstuvwxyz')
+                for w in ('self', 'crate', 'super'):
+                    if len(w) == p['n']:
+                        e.assume(z_not(V.str_eq(nm0, Str(w))))
+                holes['n'] = nm0
+                files['src/gamma.rs'] = '#[tauri::command]\npub fn r#HOLE_n(x: i32) -> i32 { x }\n'
+                expected.append(Str('r#').concat(nm0))
+                e.cover('name:raw')
+                tag = 'rawname'
             else:
                 nm = C.sym_ident('n', p['n'])
                 e.assume(z_or(*[z_not(V.char_eq(c, 95)) for c in nm.cs]))
